@@ -780,7 +780,7 @@ LEVEL_TEXT = (
     "the occurrence indicators sit, a non-list field is never repeated and a required field is always present in a DTD-valid document, and a list "
     "field is needed; the mapper's fields are literally the XSD mapper's sites of the same particle; counterexample theorem for repeated names. "
     "Attribute declarations: whatever a DTD-valid element carries for #REQUIRED / #IMPLIED / #FIXED / defaulted attributes is accepted and read as the value the DTD prescribes "
-    "(dtd_attribute_faithful). Element declarations: mixed content gives one wildcard list, EMPTY no fields, (#PCDATA) a text field; ANY gives a single wildcard field that drops character data after a child (counterexample theorem dtd_any_drops_text, finding C16-any-drops-text). Tied to /repo by "
+    "(dtd_attribute_faithful). Element declarations: mixed content gives one wildcard list, EMPTY no fields, (#PCDATA) a text field; the choices of a mixed class are exactly the listed elements (dtd_mixed_choices); ANY gives a single wildcard field that drops character data after a child (finding C16-any-drops-text, shown by the replay on the real parser). The conclusion readAttr of dtd_attribute_faithful is tied to the real parser by gen.dtd_read_attr. Tied to /repo by "
     "correspondence of DtdMapper sites, the handlers and the generated field shapes of the whole pipeline; documents and attribute defaults end to end by the oracle."
 )
 LEVEL_NOTE = "Trusted: Lean kernel, particle language spec, libxml2 DTD reader/validator, stand-in renderer, sampling correspondence."
